@@ -175,6 +175,8 @@ type RunSpec struct {
 	Always   bool   `json:"always,omitempty"`
 	Dry      bool   `json:"dry,omitempty"`
 	NoReload bool   `json:"noreload,omitempty"` // Run again on the project loaded for the previous run
+	NilOpts  bool   `json:"nilopts,omitempty"`  // Project.Run(label, nil): no options at all (neither always nor dry run)
+	NoKw     bool   `json:"nokw,omitempty"`     // callback path: run(label, callback=cb) without always= / dry_run=
 	Callback bool   `json:"callback,omitempty"` // through the run(callback=…) builtin
 	Edit     string `json:"edit,omitempty"`     // before loading, give this file new content
 }
@@ -184,6 +186,46 @@ type Case struct {
 	Files   map[string]string `json:"files"`
 	Runs    []RunSpec         `json:"runs"`
 	Cyclic  bool              `json:"cyclic,omitempty"`
+	NearMiss bool             `json:"nearmiss,omitempty"`
+}
+
+// nearMiss: the label of a target that does not exist, one edit away from one that does (a typo, another case, an
+// underscore): what the "did you mean …?" suggestion of unknownTarget is for
+func nearMiss(r *rng, c *Case) string {
+	exists := map[string]bool{}
+	for i := range c.Targets {
+		exists[c.Targets[i].label()] = true
+	}
+	for try := 0; try < 50; try++ {
+		t := &c.Targets[r.below(len(c.Targets))]
+		name := []byte(t.Name)
+		switch r.below(6) {
+		case 0: // another case
+			name[0] = name[0] - 'a' + 'A'
+		case 1: // an underscore
+			at := 1 + r.below(len(name))
+			name = append(name[:at:at], append([]byte{'_'}, name[at:]...)...)
+		case 2: // one character more
+			at := r.below(len(name) + 1)
+			name = append(name[:at:at], append([]byte{byte('a' + r.below(26))}, name[at:]...)...)
+		case 3: // one character less
+			if len(name) > 1 {
+				at := r.below(len(name))
+				name = append(name[:at:at], name[at+1:]...)
+			}
+		case 4: // another character
+			name[r.below(len(name))] = byte('0' + r.below(10))
+		default: // two neighbours exchanged
+			if len(name) > 1 {
+				name[0], name[1] = name[1], name[0]
+			}
+		}
+		cand := TargetSpec{Pkg: t.Pkg, Name: string(name)}
+		if !exists[cand.label()] {
+			return cand.label()
+		}
+	}
+	return "//:nope"
 }
 
 func (t *TargetSpec) label() string {
@@ -365,10 +407,15 @@ func genCase(r *rng) *Case {
 			t.Proc = &ProcSpec{Via: []string{"os", "sh"}[r.below(2)], Seed: r.next() % 100000, Lines: 1 + r.below(6), MaxLen: 1 + r.below(300), FinalNL: r.chance(70)}
 		}
 	}
-	if r.chance(15) { // a missing dependency somewhere
+	if r.chance(22) { // a missing dependency somewhere: an unrelated name, or a near miss of an existing target's name
 		t := &c.Targets[r.below(n)]
 		at := r.below(len(t.Deps) + 1)
-		t.Deps = append(t.Deps[:at], append([]string{"//:nope"}, t.Deps[at:]...)...)
+		missing := "//:nope"
+		if r.chance(65) {
+			missing = nearMiss(r, c)
+			c.NearMiss = true
+		}
+		t.Deps = append(t.Deps[:at], append([]string{missing}, t.Deps[at:]...)...)
 	}
 	if r.chance(6) { // a source whose path runs through a regular file: the up-to-date check itself fails
 		c.Files["blocker"] = "x"
@@ -557,12 +604,18 @@ func runCaseInner(c *Case) {
 		goroutines := runtime.NumGoroutine()
 		if rs.Callback {
 			thread, globals := proj.REPLEnv(io.Discard, &label.Label{Package: "//"})
-			_, err := starlark.Call(thread, globals["run"], starlark.Tuple{starlark.String(rs.Target)}, []starlark.Tuple{
+			kwargs := []starlark.Tuple{
 				{starlark.String("always"), starlark.Bool(rs.Always)},
 				{starlark.String("dry_run"), starlark.Bool(rs.Dry)},
 				{starlark.String("callback"), cb},
-			})
+			}
+			if rs.NoKw {
+				kwargs = kwargs[2:]
+			}
+			_, err := starlark.Call(thread, globals["run"], starlark.Tuple{starlark.String(rs.Target)}, kwargs)
 			res.err = err
+		} else if rs.NilOpts {
+			res.err = proj.Run(l, nil)
 		} else {
 			res.err = proj.Run(l, &dawn.RunOptions{Always: rs.Always, DryRun: rs.Dry})
 		}
@@ -1025,6 +1078,63 @@ func procStream(r *rng, tier string) {
 	}
 }
 
+// optStream: sequences of run options on ONE loaded project: every sequence of length 2 and 3 over
+// {Run(l, nil), {}, {DryRun}, {Always}, {Always, DryRun}}, through the library API and, mixed in, the run(callback=…)
+// builtin (with and without its always= / dry_run= arguments). Each run is judged for the options OF THAT RUN.
+func optStream(r *rng, tier string) {
+	opts := []RunSpec{{NilOpts: true}, {}, {Dry: true}, {Always: true}, {Always: true, Dry: true}}
+	var seqs [][]int
+	for a := range opts {
+		for b := range opts {
+			seqs = append(seqs, []int{a, b})
+			for c := range opts {
+				seqs = append(seqs, []int{a, b, c})
+			}
+		}
+	}
+	reps := 1
+	if tier == "thorough" {
+		reps = 6
+	}
+	for rep := 0; rep < reps; rep++ {
+		for si, seq := range seqs {
+			c := &Case{Files: map[string]string{"s0.txt": "v1"}}
+			nt := 2 + r.below(3)
+			for j := 0; j < nt; j++ {
+				t := TargetSpec{Name: fmt.Sprintf("t%d", j)}
+				for k := 0; k < j; k++ {
+					if r.chance(50) {
+						t.Deps = append(t.Deps, c.Targets[k].label())
+					}
+				}
+				if r.chance(30) {
+					t.Sources = []string{"s0.txt"}
+				}
+				if r.chance(50) {
+					t.Chunks = []string{hx("out\n")}
+				}
+				t.Fail = r.chance(8)
+				t.Always = r.chance(8)
+				c.Targets = append(c.Targets, t)
+			}
+			root := c.Targets[nt-1].label()
+			for i, o := range seq {
+				rs := opts[o]
+				rs.Target = root
+				rs.NoReload = i > 0
+				// every third sequence sends its non-nil runs through the builtin; a run with no option set may omit the keywords
+				if (si+rep)%3 == 2 && !rs.NilOpts {
+					rs.Callback = true
+					rs.NoKw = !rs.Always && !rs.Dry && r.chance(50)
+				}
+				c.Runs = append(c.Runs, rs)
+			}
+			count("ev.opts.sequences", 1)
+			runCase(c)
+		}
+	}
+}
+
 func evStreams(r *rng, tier string) {
 	if p := runtime.GOMAXPROCS(0); p < 4 {
 		runtime.GOMAXPROCS(4)
@@ -1033,6 +1143,7 @@ func evStreams(r *rng, tier string) {
 	if tier == "race" {
 		return
 	}
+	optStream(r, tier)
 	n := 40
 	if tier == "thorough" {
 		n = 3000
